@@ -501,6 +501,23 @@ def _check_linprog(prog, rep, fi, call):
             if isinstance(n, ast.Assign) and isinstance(n.targets[0], ast.Subscript) and src(n.targets[0].value) == star[0].id and isinstance(n.targets[0].slice, ast.Constant):
                 kws[n.targets[0].slice.value] = n.value
     b = kws.get("bounds")
+    # linprog's own default is (0, None) for every variable, not "free": leaving bounds= out is only the same LP when the
+    # list is empty (no variables).  The store `kwargs["bounds"] = ..` may be guarded by the list's emptiness, nothing else.
+    if star and isinstance(star[0], ast.Name):
+        for n in walk_local(fi.node):
+            if isinstance(n, ast.Assign) and isinstance(n.targets[0], ast.Subscript) and src(n.targets[0].value) == star[0].id and isinstance(n.targets[0].slice, ast.Constant) and n.targets[0].slice.value == "bounds":
+                for t_, pol_ in dominating_guards(n):
+                    txt = src(t_)
+                    bn = src(n.value)
+                    if pol_ and txt in (bn, f"len({bn})", f"len({bn}) > 0", f"{bn} is not None", f"len({bn}) != 0"):
+                        continue
+                    if any(isinstance(x_, ast.Constant) and x_.value is None for x_ in ast.walk(t_)) and any(isinstance(x_, ast.Name) and x_.id == (n.value.id if isinstance(n.value, ast.Name) else "") for x_ in ast.walk(t_)) and any(isinstance(x_, (ast.GeneratorExp, ast.ListComp)) for x_ in ast.walk(t_)):
+                        rep.ob("R06.3", f"{fname}:linprog(bounds=)", False,
+                               f"bounds= is handed to linprog only when `{txt[:70]}` holds: when no variable declares a bound the keyword is left out and SciPy applies ITS default, (0, None) for every variable -- free variables become non-negative, "
+                               f"so the LP that is solved (optimum, INFEASIBLE / UNBOUNDED verdict) is not the user's",
+                               loc=f"{fi.module.rel}:{n.lineno}", detail="bounds-always-passed", robust=True)
+                    else:
+                        rep.undecided(f"{fname}: bounds= is stored into the linprog keywords under `{txt[:60]}`; whether it can be left out for a model with variables is not decided")
     if b is not None:
         origin = [b] + ([v for v in assigns.get(b.id, []) if isinstance(v, ast.AST)] if isinstance(b, ast.Name) else [])
         cached = [o for o in origin if isinstance(o, ast.Attribute) and isinstance(o.value, ast.Name) and any(isinstance(v, ast.AST) and "_lp_cache" in src(v) for v in assigns.get(o.value.id, []))]
